@@ -241,4 +241,30 @@ class enantiomer(Derivation):
         return sp
 
 
-DERIVATIONS = {"subgraph(any size)": subgraph_any, "copy": copy, "copy_constructor": copy_constructor, "relabel_atoms(copy=True)": relabel_copy, "subgraph": subgraph, "enantiomer": enantiomer}
+def _swap_label(val):
+    """FORMED <-> BROKEN on a reaction label value; FLEETING and anything else kept"""
+    ValS = H.ValS
+    return z3.If(val == ValS.VChg(H.CHG["FORMED"]), ValS.VChg(H.CHG["BROKEN"]), z3.If(val == ValS.VChg(H.CHG["BROKEN"]), ValS.VChg(H.CHG["FORMED"]), val))
+
+
+def _swap_chg(c):
+    return z3.If(c == H.CHG["FORMED"], H.CHG["BROKEN"], z3.If(c == H.CHG["BROKEN"], H.CHG["FORMED"], c))
+
+
+class reverse_reaction(Derivation):
+    """C08: formed <-> broken on the bond labels and inside the stereo changes, everything else (atoms, bonds, every other
+    attribute, fleeting labels, descriptors) kept; the result is a new graph"""
+    classes = REACTION
+
+    def call(self, it, g, cname):
+        return ("method", "reverse_reaction", [], {}), {}
+
+    def spec(self, v, s, cname):
+        sp = {"battr_val": lambda b, k: z3.If(k == H.K_REACTION, _swap_label(v.battr_val(b, k)), v.battr_val(b, k))}
+        if cname == "StereoCondensedReactionGraph":
+            sp["ac"] = lambda x, c: ac_view(v, x, _swap_chg(c))
+            sp["bc"] = lambda b, c: bc_view(v, b, _swap_chg(c))
+        return sp
+
+
+DERIVATIONS = {"reverse_reaction": reverse_reaction, "subgraph(any size)": subgraph_any, "copy": copy, "copy_constructor": copy_constructor, "relabel_atoms(copy=True)": relabel_copy, "subgraph": subgraph, "enantiomer": enantiomer}
